@@ -263,7 +263,14 @@ func H06a() {
 	var payload []byte
 	declared := vHash(1)
 	if withPayload {
-		payload = vBytes(1)
+		// concrete payload, declared hash either its real hash or another value (SHA-256 of symbolic bytes is an
+		// uninterpreted function in the engine: a model could let it "collide" with the declared hash, and such a
+		// counterexample does not replay)
+		payload = []byte{7}
+		vTag("declared_matches")
+		if vBool() {
+			declared = hash.SHA256Sum(payload)
+		}
 	}
 	sigOK = vBool()
 	probe := hNewTx(ref, clock, declared, prevs)
